@@ -16,7 +16,8 @@ CONSTANTS NSpare,         \* number of object ids available for copies
           ShallowSlots,   \* COUNTER-DESIGN: slots copy() copies by reference   ({} = magpylib's design)
           KeepParent,     \* COUNTER-DESIGN: copy() keeps the parent link       (FALSE = magpylib's design)
           AliasArgs,      \* COUNTER-DESIGN: slots for which the copy refers to the caller's argument cell ({})
-          MergeInPlace    \* COUNTER-DESIGN: an extra style keyword is merged into the caller's style template (FALSE)
+          MergeInPlace,   \* COUNTER-DESIGN: an extra style keyword is merged into the caller's style template (FALSE)
+          EagerParent     \* COUNTER-DESIGN: parent=... is applied before a later keyword is found invalid        (FALSE)
 VARIABLES st, ne, pairs, last
 vars == <<st, ne, pairs, last>>
 
@@ -59,17 +60,30 @@ RenOf(s, o) == LET fl == FlatOf(s, o) fr == FreeSeq(s) IN
 \* keyword forms: any set of at most MaxOvr keywords among the slots the object has and the label; the values of the
 \* slots are read from the caller's argument node; a style template may come with an extra underscore keyword
 OvrSlotSets(s, o) == {T \in SUBSET (DOMAIN s.refs[o] \cap ArgSlots) : Cardinality(T) <= MaxOvr}
-Copy(o, slots, extra, lab) ==
+Copy(o, slots, extra, lab, par) ==
     /\ Cardinality(pairs) < MaxCopies
     /\ Len(FreeSeq(st)) >= Len(FlatOf(st, o))
-    /\ Cardinality(slots) + (IF lab >= 0 THEN 1 ELSE 0) <= MaxOvr
+    /\ Cardinality(slots) + (IF lab >= 0 THEN 1 ELSE 0) + (IF par # None THEN 1 ELSE 0) <= MaxOvr
     /\ (extra >= 0 => StySlot \in slots)
     /\ LET ren == RenOf(st, o)
            newc == [p \in UNION {{<<ren[x], t>> : t \in DOMAIN st.refs[x]} : x \in DOMAIN ren} |-> Cell(p[1], p[2], 0)]
-       IN /\ st' = CopyWithArgsF(st, o, ArgNode, slots, extra, lab, ren, newc, ShallowSlots, KeepParent, AliasArgs, MergeInPlace)
+       IN /\ st' = CopyIntoF(CopyWithArgsF(st, o, ArgNode, slots, extra, lab, ren, newc, ShallowSlots, KeepParent, AliasArgs, MergeInPlace), ren[o], par)
           /\ pairs' = pairs \cup {<<o, ren[o]>>}
-          /\ last' = [op |-> "copy", o |-> o, ren |-> ren, ovr |-> OvrFromArgs(st, ArgNode, slots, extra, lab), touched |-> {}]
+          /\ last' = [op |-> "copy", o |-> o, ren |-> ren, ovr |-> OvrFromArgs(st, ArgNode, slots, extra, lab), par |-> par, touched |-> {}]
     /\ UNCHANGED ne
+\* a copy() call that is rejected because a keyword AFTER parent=par has an invalid value: nothing happens (design);
+\* counter-design: the half-made copy has already joined the collection
+CopyRejected(o, par) ==
+    /\ Cardinality(pairs) < MaxCopies
+    /\ Len(FreeSeq(st)) >= Len(FlatOf(st, o))
+    /\ LET ren == RenOf(st, o)
+           newc == [p \in UNION {{<<ren[x], t>> : t \in DOMAIN st.refs[x]} : x \in DOMAIN ren} |-> Cell(p[1], p[2], 0)]
+       IN st' = IF EagerParent /\ par # None
+                THEN CopyIntoF(CopyWithArgsF(st, o, ArgNode, {}, -1, -1, ren, newc, ShallowSlots, KeepParent, AliasArgs, MergeInPlace), ren[o], par)
+                ELSE st
+    /\ last' = [op |-> "copyfail", o |-> o, par |-> par, touched |-> {}]
+    /\ UNCHANGED <<ne, pairs>>
+ParentChoices(s, o) == {None} \cup {c \in HObjs(s) : s.kind[c] = "C" /\ c \notin HSub(s, o)}
 Mutate(o, s, v) ==
     /\ st' = MutateF(st, o, s, v)
     /\ last' = [op |-> "mutate", o |-> o, slot |-> s, touched |-> {o}]
@@ -97,7 +111,9 @@ Unparent(o) ==
 Init == /\ \E m \in StyleModes, l \in {-1, 0} : st = St0(m, l)
         /\ ne = 0 /\ pairs = {} /\ last = [op |-> "init", touched |-> {}]
 Next == \E o \in HObjs(st) :
-          \/ (o \notin Args /\ \E slots \in OvrSlotSets(st, o), extra \in {-1} \cup Vals, lab \in {-1, 7} : Copy(o, slots, extra, lab))
+          \/ (o \notin Args /\ \E slots \in OvrSlotSets(st, o), extra \in {-1} \cup Vals, lab \in {-1, 7} : Copy(o, slots, extra, lab, None))
+          \/ (o \notin Args /\ \E par \in ParentChoices(st, o) \ {None} : Copy(o, {}, -1, -1, par) \/ CopyRejected(o, par))
+          \/ (o \notin Args /\ CopyRejected(o, None))
           \/ \E s \in DOMAIN st.refs[o] \ {KidSlot, KwSlot} : \E v \in Vals \ {PubOf(st, o)[s]} :
                  Mutate(o, s, v) \/ (s # StySlot /\ o \notin Args /\ Assign(o, s, v))
           \/ (o \notin Args /\ \E c \in {x \in HObjs(st) : st.kind[x] = "C"} : Add(c, o))
@@ -116,18 +132,19 @@ NoAliasInv == LET all == UNION {{<<a, s>> : s \in DOMAIN st.refs[a]} : a \in HOb
 ForestHeapInv == ForestInv(TreeView(st))
 IsCopy == last'.op = "copy"
 NoSharingP          == [][IsCopy => NoSharing(ObsOf(st'), last'.o, last'.ren[last'.o]) /\ CopyCellsPrivate(ObsOf(st'), last'.ren[last'.o], Args)]_vars
-CopyParentlessP     == [][IsCopy => CopyParentless(ObsOf(st'), last'.ren[last'.o])]_vars
+CopyParentlessP     == [][IsCopy => CopyParentIs(ObsOf(st'), last'.ren[last'.o], last'.par)]_vars
+RejectedCopyP       == [][last'.op = "copyfail" => RejectedCopyUntouched(ObsOf(st), ObsOf(st'))]_vars
 CopySubtreeForestP  == [][IsCopy => CopySubtreeForest(ObsOf(st), ObsOf(st'), last'.o, last'.ren)]_vars
-OriginalUntouchedP  == [][IsCopy => OriginalUntouched(ObsOf(st), ObsOf(st'))]_vars
+OriginalUntouchedP  == [][IsCopy /\ last'.par = None => OriginalUntouched(ObsOf(st), ObsOf(st'))]_vars
 ArgumentsP          == [][IsCopy => ArgumentsUntouched(ObsOf(st), ObsOf(st'), Args) /\ ArgumentsNotAliased(ObsOf(st'), last'.ren[last'.o], Args)]_vars
 EqualProjectionP    == [][IsCopy => EqualProjection(ObsOf(st), ObsOf(st'), last'.o, last'.ren, FreeByOverride(ObsOf(st), last'.o, last'.ovr))]_vars
 OverridesOnlyCopyP  == [][IsCopy => /\ OverridesApplied(ObsOf(st'), last'.ren[last'.o], [a \in DOMAIN last'.ovr \ {"label"} |-> last'.ovr[a]])
                                      /\ ("label" \in DOMAIN last'.ovr => st'.lab[last'.ren[last'.o]] = last'.ovr["label"])
-                                     /\ OriginalUntouched(ObsOf(st), ObsOf(st'))]_vars
+                                     /\ (last'.par = None => OriginalUntouched(ObsOf(st), ObsOf(st')))]_vars
 LabelIterP          == [][IsCopy /\ "label" \notin DOMAIN last'.ovr =>
                              st'.lab[last'.ren[last'.o]] = (IF st.sty[last'.o] = "none" THEN st.lab[last'.o] ELSE Iter(st.lab[last'.o]))]_vars
 \* the clause dispatcher used by the trace validator agrees with the individual clauses
-CopyClauseP         == [][IsCopy => CopyClause(ObsOf(st), ObsOf(st'), last'.o, last'.ren, last'.ovr, FreeByOverride(ObsOf(st), last'.o, last'.ovr), Args) = "ok"]_vars
+CopyClauseP         == [][IsCopy => CopyClause(ObsOf(st), ObsOf(st'), last'.o, last'.ren, last'.ovr, FreeByOverride(ObsOf(st), last'.o, last'.ovr), Args, last'.par) = "ok"]_vars
 \* any later change is invisible to every object the operation does not address
 Independence == [][~IsCopy => IndependentStep(ObsOf(st), ObsOf(st'), HObjs(st) \ last'.touched)]_vars
 \* ... in the words of the property: for every (original, copy) pair living in different trees, a change on one
@@ -143,10 +160,11 @@ StepOK == LET pre == ObsOf(st)
               post == ObsOf(st')
               l == last'
           IN IF l.op = "copy"
-             THEN /\ CopyClause(pre, post, l.o, l.ren, l.ovr, FreeByOverride(pre, l.o, l.ovr), Args) = "ok"
+             THEN /\ CopyClause(pre, post, l.o, l.ren, l.ovr, FreeByOverride(pre, l.o, l.ovr), Args, l.par) = "ok"
                   /\ NoSharing(post, l.o, l.ren[l.o])
                   /\ (IF "label" \in DOMAIN l.ovr THEN post.lab[l.ren[l.o]] = l.ovr["label"]
                       ELSE post.lab[l.ren[l.o]] = (IF st.sty[l.o] = "none" THEN pre.lab[l.o] ELSE Iter(pre.lab[l.o])))
+             ELSE IF l.op = "copyfail" THEN RejectedCopyUntouched(pre, post)
              ELSE IndependentStep(pre, post, HObjs(st) \ l.touched)
 C18Step == [][StepOK]_vars
 =============================================================================
